@@ -135,10 +135,12 @@ class SimulatedExecutionEnvironment(ExecutionEnvironment):
         symbol_to_fnode = {}
         cnt = 0
         for hf in problem.hidden_fluents:
-            if not hf.is_not():
+            # a constraint may mention a fluent only through its negation
+            atom = hf.arg(0) if hf.is_not() else hf
+            if atom not in fnode_to_symbol:
                 s = Symbol(f"v_{cnt}")
-                fnode_to_symbol[hf] = s
-                symbol_to_fnode[s] = hf
+                fnode_to_symbol[atom] = s
+                symbol_to_fnode[s] = atom
                 cnt += 1
 
         constraints = []
